@@ -1481,6 +1481,23 @@ func cfgValidScalars(cfg *ResponseConfig) bool {
 //@   keep single-answer
 //@   keep index: data.MPDs[0]; data.DRMs[0]
 
+// Small handlers: one answer per request on every path.
+//@ func (*Server).configHandlerFunc
+//@   wiring
+//@   keep single-answer
+//@ func (*Server).favIconFunc
+//@   wiring
+//@   keep single-answer
+//@ func (*Server).jsonResponse
+//@   wiring
+//@   keep single-answer
+//@ func (*Server).indexHandlerFunc
+//@   wiring
+//@   keep single-answer
+//@ func (*Server).assetsHandlerFunc
+//@   wiring
+//@   keep single-answer
+
 // NewCmafIngester: the internal MPD request is built with the error-returning constructor (the test
 // helper httptest.NewRequest panics on a malformed target), and a failed one ends the creation.
 //@ func (*cmafIngesterMgr).NewCmafIngester
